@@ -688,6 +688,49 @@ func (s *mdkServer) Close() {
 }
 
 // ---------------------------------------------------------------------------------------
+// journal diagnostics (in-package reads used to decide whether an empty page is the end)
+
+// mdkNewerInTable says whether metrics_v5 verifiably holds a version larger than from.
+func mdkNewerInTable(db *DBV2, from int64) (exists bool, desc string) {
+	desc = "nothing newer"
+	err := db.eng.Do(context.Background(), "verif_newer", func(conn sqlite.Conn, cache []byte) ([]byte, error) {
+		rows := conn.Query("verif_newer", "SELECT id, version, length(data) FROM metrics_v5 WHERE version > $v ORDER BY version LIMIT 1", sqlite.Int64("$v", from))
+		if rows.Next() {
+			id, _ := rows.ColumnInt64(0)
+			ver, _ := rows.ColumnInt64(1)
+			n, _ := rows.ColumnInt64(2)
+			exists, desc = true, fmt.Sprintf("entity %d at version %d with %d bytes of data", id, ver, n)
+		}
+		return cache, rows.Error()
+	})
+	if err != nil {
+		desc += fmt.Sprintf(" (read error: %v)", err)
+	}
+	return
+}
+
+// mdkJournalProbe repeats the journal's own SELECT in-package, steps the first row and reports
+// rows.Error() — the error JournalEvents itself never looks at.
+func mdkJournalProbe(db *DBV2, from int64) string {
+	res := ""
+	err := db.eng.Do(context.Background(), "verif_journal_probe", func(conn sqlite.Conn, cache []byte) ([]byte, error) {
+		rows := conn.Query("select_journal", "SELECT id, name, version, data, updated_at, type, deleted_at, namespace_id FROM metrics_v5 WHERE version > $version ORDER BY version asc;",
+			sqlite.Int64("$version", from))
+		got := rows.Next()
+		res = fmt.Sprintf("first step: row=%v rows.Error()=%v", got, rows.Error())
+		if got {
+			data, derr := rows.ColumnBlobString(3)
+			res += fmt.Sprintf(" data=%d bytes column error=%v", len(data), derr)
+		}
+		return cache, nil
+	})
+	if err != nil {
+		res += fmt.Sprintf(" (Do error: %v)", err)
+	}
+	return res
+}
+
+// ---------------------------------------------------------------------------------------
 // misc
 
 func mdkErrClass(err error) string {
